@@ -641,6 +641,16 @@ func isOrderedFilter(v ssa.Value, field *types.Var, seen map[ssa.Value]bool) boo
 		return true
 	case *ssa.Const:
 		return x.Value == nil
+	case *ssa.Slice:
+		// builders[:0]: the in-place filter idiom — an empty slice over the list's own storage; the write position
+		// never passes the read position, so elements read in order are kept in order
+		if x.High == nil {
+			return false
+		}
+		if k, ok := engine.ConstInt(x.High); ok && k == 0 && x.Low == nil && isLoadOfField(x.X, field) {
+			return true
+		}
+		return false
 	case *ssa.Phi:
 		for _, e := range x.Edges {
 			if !isOrderedFilter(e, field, seen) {
